@@ -294,6 +294,7 @@ func (sc *c09Scenario) Run(s *simrt.Sim) {
 			s.Event("job-start", fmt.Sprintf("job %d (%s)", rec.id, spec.Kind))
 			s.Yield()
 			if spec.Kind == "slow" {
+				s.Fault("slow-job")
 				s.Sleep(spec.D)
 			}
 			if spec.Kind == "spawn" {
@@ -305,6 +306,7 @@ func (sc *c09Scenario) Run(s *simrt.Sim) {
 			s.Yield()
 			rec.ends = append(rec.ends, s.Stamp())
 			if spec.Kind == "panic" {
+				s.Fault("job-panics")
 				rec.panicVal = fmt.Sprintf("job-%d-panic", rec.id)
 				panic(rec.panicVal)
 			}
@@ -390,6 +392,7 @@ func (sc *c09Scenario) Run(s *simrt.Sim) {
 				return true
 			}
 			sc.probes["panic-handler-blocked-while-others-run"]++
+			s.Fault("panic-handler-blocks")
 			// no deadline of its own (an injected stall would make any virtual-time deadline meaningless): if the pool
 			// cannot go on while this handler runs, the settle phase's fair horizon expires and the run is judged there
 			sc.stalledInfo = fmt.Sprintf("the panic handler (handling %q) was still waiting for the other accepted jobs to run; max=%d standby=%d", val, sc.Max, sc.StandBy)
